@@ -2224,7 +2224,8 @@ def validate_meta(
             if stat.S_ISDIR(st.st_mode):
                 source_hash = ""
             else:
-                source_hash = manager.fscache.hash_digest(path)
+                # Hash what will actually be read (see State.parse_file()), like get_stat() above.
+                source_hash = manager.fscache.hash_digest(manager.maybe_swap_for_shadow_path(path))
         except (OSError, UnicodeDecodeError, DecodeError):
             return None
         manager.add_stats(validate_hash_time=time.time() - t0)
